@@ -97,7 +97,7 @@ void kernel_reset();
 bool kernel_is_simfd(int fd);
 void run_external_steps();  // called at epoll_wait entry
 void invariants_at_cycle();
-int  sim_main_run(const Plan &p);
+int  sim_main_run(const Plan &p, int life = 0, bool last_life = true, long gap_s = 0);
 bool parse_plan(FILE *in, Plan &p, std::string &err);
 void files_init();
 void sim_fire_timer();
@@ -108,3 +108,5 @@ void files_reset();
 void files_arm_stop(long n);
 long files_mut_calls();
 void files_set_mtime(const std::string &p, time_t t);
+void files_save_state(const std::string &path);
+void files_load_state(const std::string &path);
